@@ -1101,11 +1101,10 @@ where
 {
     fn extend<T: IntoIterator<Item = (I, P)>>(&mut self, iter: T) {
         let iter = iter.into_iter();
-        let (min, max) = iter.size_hint();
-        let rebuild = if let Some(max) = max {
-            self.reserve(max);
-            better_to_rebuild(self.len(), max)
-        } else if min != 0 {
+        // Only the lower bound says how many elements will surely come: the
+        // upper bound may be far above what the iterator really yields.
+        let (min, _) = iter.size_hint();
+        let rebuild = if min != 0 {
             self.reserve(min);
             better_to_rebuild(self.len(), min)
         } else {
